@@ -33,6 +33,11 @@ class AArr:
         self.view_of: Optional[AArr] = origin  # basic-slice view shares memory with origin
         self.empty_unknown = Unknown(f"empty:{side}")
         self.events: list = []
+        self.vid = self.uid  # identity of the VALUES: shared with copies until either is written to
+
+    def values_changed(self):
+        AArr._n += 1
+        self.vid = AArr._n
 
     def root(self) -> "AArr":
         a = self
@@ -57,6 +62,11 @@ class AMask:
         self.of = of
         self.kind = kind  # 'nonzero' | 'zero' | 'eq' | 'isin' | 'notin' | 'other'
         self.detail = detail
+        self.of_vid = getattr(of, "vid", None)  # the values the mask was computed from
+
+    def masks(self, arr: "AArr") -> bool:
+        """was this mask computed from exactly the values `arr` holds now?"""
+        return self.of is arr or (self.of_vid is not None and self.of_vid == getattr(arr, "vid", object()))
 
     def __repr__(self):
         return f"mask({self.of.side} {self.kind} {self.detail if self.detail is not None else ''})"
@@ -161,6 +171,7 @@ class ArrInterp(ResultInterp):
         if name == "copy":
             out = AArr(a.side, True, a.content, a.selection)
             out.casts = list(a.casts)
+            out.vid = a.vid
             for extra in ("cropped", "stage"):
                 if hasattr(a, extra):
                     setattr(out, extra, getattr(a, extra))
@@ -282,7 +293,9 @@ class ArrInterp(ResultInterp):
     def store_subscript_hook(self, base, idx, v, node):
         if isinstance(base, AArr):
             self.root.stores.append((node, base, idx, v, base.is_fresh()))
-            if isinstance(idx, AMask) and idx.of is base:
+            applies = isinstance(idx, AMask) and idx.masks(base)
+            base.values_changed()
+            if applies:
                 if idx.kind == "nonzero" and v == 1:
                     if base.content == "labels" and base.casts:
                         base.content = f"opaque:binarised after narrowing cast {base.casts}"
@@ -301,6 +314,21 @@ class ArrInterp(ResultInterp):
     # -- numpy functions ------------------------------------------------------------------
     def external_call(self, name, args, kwargs, node):
         out_arr = kwargs.get("out")
+        if name in ("numpy.not_equal", "numpy.greater", "numpy.equal") and len(args) >= 2 and isinstance(args[0], AArr) and not (set(kwargs) - {"out", "casting", "order", "dtype"}):
+            k = {"numpy.not_equal": ast.NotEq(), "numpy.greater": ast.Gt(), "numpy.equal": ast.Eq()}[name]
+            m = self.compare_hook(k, args[0], args[1], node)
+            tgt = args[2] if len(args) > 2 else out_arr
+            if isinstance(m, AMask):
+                if tgt is None:
+                    return m
+                if isinstance(tgt, AMask):
+                    # comparison written into an existing boolean buffer: the buffer now is this mask
+                    tgt.of, tgt.kind, tgt.detail, tgt.of_vid = m.of, m.kind, m.detail, m.of_vid
+                    return tgt
+                if isinstance(tgt, AArr) and tgt is args[0] and m.kind == "nonzero":
+                    # x = (x != 0) in place: the array is binarised
+                    self.store_subscript_hook(tgt, AMask(tgt, "nonzero"), 1, node)
+                    return tgt
         if isinstance(out_arr, AArr):
             self.root.stores.append((node, out_arr, "out=", None, out_arr.is_fresh()))
         if name in ("numpy.copyto", "numpy.put", "numpy.place", "numpy.putmask") and args and isinstance(args[0], AArr):
